@@ -2,6 +2,7 @@
 from .. import AnalysisBroken
 from ..rules import Equiv, canon_binders, canon_params, check_equiv, compare_function, std_rewrites, where_of
 from ..terms import NONE, const, head, is_const, show, strip, strip_all, subst, walk
+from ..eff import check_pure_params
 from ._nn import check_rank2
 from .C05 import SPEC as C05_SPEC
 
@@ -84,6 +85,9 @@ def run(r):
     rep.explanation = "The two clustering functions were reduced to canonical call terms and compared with the specification; the edge subscript was rank-checked; the ordering of simplify() was checked."
     rep.trust("igraph.Graph(edges, n) has n vertices and the listed edges; connected_components(mode='weak').membership[k] is the component of vertex k",
               "scipy.cluster.hierarchy.linkage / fcluster", "pandas value_counts / isin")
+    # purity first: cheap, robust, and a recorded violation takes precedence over a later 'cannot decide'
+    check_pure_params(r, "C15-PURE", ["pyrepseq.distance.hierarchical_clustering", "pyrepseq.clustering.graph_clustering"])
+    rep.floor("C15-PURE", 6)
     rw = std_rewrites(ident=("numpy.asarray", "numpy.array")) + [canon_binders]
     compare_function(r, "C15-PIPE", "pyrepseq.distance.hierarchical_clustering", SPEC, "hierarchical_clustering returns (linkage of the metric's condensed distances, fcluster of that linkage), default metric as in pcDelta",
                      eq=Equiv(rewrites=rw, modelled={"scipy.cluster.hierarchy.linkage", "scipy.cluster.hierarchy.fcluster"}), key="hierarchical pipeline")
